@@ -1,4 +1,5 @@
 import CppUModel.Proofs.SimpleStringOps
+import CppUModel.Proofs.StringPrims
 /-!
 # C13 — string operations equal their textbook meaning and are memory-safe
 
@@ -481,5 +482,160 @@ example : liveAfter (exState 5).2.log [] = some [] := by
   rw [this] at h2
   simp only [owned, List.map_nil, List.perm_nil] at h2
   rw [h1, h2]
+
+/-! ## the primitives as REGENERATED from `SimpleString.cpp` on this run (`Gen/StringPrims.lean`)
+
+`translate/extract_string_prims.py` turns clang's typed AST of the fourteen primitives into the Lean
+functions `Gen.StrPrims.*` (loops = recursion on a fuel argument, `*p` = bounded read `rd`, `char` signed,
+`size_t` modulo 2^64, `int` range-checked).  The theorems below are about THOSE definitions, so they are
+re-checked against what the source says at check time.  Two forms for each primitive:
+`…_is_model`: the regenerated function equals the hand-written model of `Base/CString.lean` on EVERY
+input (error outcomes included) — hence every theorem of this file and of C02x/C03x/C12x/C14 that goes
+through the hand model speaks about the code; `gen_…_eq`: for C strings and enough fuel (stated bound:
+more than the string/count, at most 2^64) it returns the textbook value, i.e. no out-of-bounds access
+(`Err.oob`), no exhausted fuel (termination), no signed overflow. -/
+
+open Gen.StrPrims in
+theorem gen_charclass_is_model (c : UInt8) :
+    Gen.StrPrims.isDigit c = CStr.isDigit c ∧ Gen.StrPrims.isSpace c = CStr.isSpace c ∧
+    Gen.StrPrims.isUpper c = CStr.isUpper c ∧ Gen.StrPrims.isControl c = CStr.isControl c ∧
+    Gen.StrPrims.isControlWithShortEscapeSequence c = CStr.isControlWithShortEscapeSequence c :=
+  ⟨GenPrims.isDigit_eq c, GenPrims.isSpace_eq c, GenPrims.isUpper_eq c, GenPrims.isControl_eq c,
+   GenPrims.isControlWithShortEscapeSequence_eq c⟩
+
+/-- the regenerated character classes have their textbook meaning (`char` is signed: bytes ≥ 0x80 are control) -/
+theorem gen_charclass_textbook (c : UInt8) :
+    (Gen.StrPrims.isDigit c = true ↔ 48 ≤ c.toNat ∧ c.toNat ≤ 57) ∧
+    (Gen.StrPrims.isSpace c = TextExt.isBlank c) ∧
+    (Gen.StrPrims.isUpper c = true ↔ 65 ≤ c.toNat ∧ c.toNat ≤ 90) ∧
+    (Gen.StrPrims.isControl c = true ↔ c.toNat < 32 ∨ c.toNat = 127 ∨ 128 ≤ c.toNat) ∧
+    (Gen.StrPrims.isControlWithShortEscapeSequence c = true ↔ 7 ≤ c.toNat ∧ c.toNat ≤ 13) := by
+  revert c
+  exact GenPrims.forall_uint8 _ (by decide +kernel)
+
+theorem gen_tolower_is_model (c : UInt8) : Gen.StrPrims.ToLower c = CStr.ToLower c := GenPrims.ToLower_eq c
+theorem gen_tolower_eq (c : UInt8) : Gen.StrPrims.ToLower c = Text.lowerByte c := by
+  rw [GenPrims.ToLower_eq]; exact ToLower_eq_lowerByte c
+
+theorem gen_strlen_is_model (b : Buf) (p : Nat) (hb : b.length + 1 < 18446744073709551616) :
+    Gen.StrPrims.StrLen (b.length + 1) b p = CStr.StrLen b p := GenPrims.StrLen_eq b p hb
+theorem gen_strlen_eq {b : Buf} {p : Nat} {a : Bytes} (h : CAt b p a) (fuel : Nat) (hf : a.length < fuel)
+    (hm : fuel < 18446744073709551616) : Gen.StrPrims.StrLen fuel b p = .ok a.length := GenPrims.StrLen_ok h fuel hf hm
+
+theorem gen_strcmp_is_model (b1 b2 : Buf) (p1 p2 : Nat) :
+    Gen.StrPrims.StrCmp (b1.length + 1) b1 p1 b2 p2 = CStr.StrCmp b1 p1 b2 p2 := GenPrims.StrCmp_eq b1 b2 p1 p2
+theorem gen_strcmp_eq {b1 b2 : Buf} {p1 p2 : Nat} {a1 a2 : Bytes} (h1 : CAt b1 p1 a1) (h2 : CAt b2 p2 a2)
+    (fuel : Nat) (hf : a1.length < fuel) : Gen.StrPrims.StrCmp fuel b1 p1 b2 p2 = .ok (Text.cmp a1 a2) :=
+  GenPrims.StrCmp_ok h1 h2 fuel hf
+theorem gen_strcmp_zero_iff_eq {b1 b2 : Buf} {p1 p2 : Nat} {a1 a2 : Bytes} (h1 : CAt b1 p1 a1) (h2 : CAt b2 p2 a2)
+    (fuel : Nat) (hf : a1.length < fuel) : Gen.StrPrims.StrCmp fuel b1 p1 b2 p2 = .ok 0 ↔ a1 = a2 := by
+  rw [GenPrims.StrCmp_ok h1 h2 fuel hf]
+  constructor
+  · intro h; injection h with h; exact (cmp_eq_zero_iff h1.nulFree h2.nulFree).mp h
+  · intro h; rw [(cmp_eq_zero_iff h1.nulFree h2.nulFree).mpr h]
+
+theorem gen_strncmp_is_model (fuel : Nat) (b1 b2 : Buf) (p1 p2 n : Nat) (hf : n < fuel) (hn : n < 18446744073709551616) :
+    Gen.StrPrims.StrNCmp fuel b1 p1 b2 p2 n = CStr.StrNCmp b1 p1 b2 p2 n := GenPrims.StrNCmp_eq fuel b1 b2 p1 p2 n hf hn
+theorem gen_strncmp_eq {b1 b2 : Buf} {p1 p2 : Nat} {a1 a2 : Bytes} (h1 : CAt b1 p1 a1) (h2 : CAt b2 p2 a2)
+    (fuel n : Nat) (hf : n < fuel) (hn : n < 18446744073709551616) :
+    Gen.StrPrims.StrNCmp fuel b1 p1 b2 p2 n = .ok (Text.ncmp n a1 a2) := GenPrims.StrNCmp_ok h1 h2 fuel n hf hn
+
+theorem gen_memcmp_is_model (fuel : Nat) (b1 b2 : Buf) (p1 p2 n : Nat) (hf : n < fuel) (hn : n < 18446744073709551616) :
+    Gen.StrPrims.MemCmp fuel b1 p1 b2 p2 n = CStr.MemCmp b1 p1 b2 p2 n := GenPrims.MemCmp_eq fuel b1 b2 p1 p2 n hf hn
+theorem gen_memcmp_eq (fuel n : Nat) (b1 b2 : Buf) (p1 p2 : Nat) (h1 : n ≤ (b1.drop p1).length)
+    (h2 : n ≤ (b2.drop p2).length) (hf : n < fuel) (hn : n < 18446744073709551616) :
+    Gen.StrPrims.MemCmp fuel b1 p1 b2 p2 n = .ok (TextExt.memCmp n (b1.drop p1) (b2.drop p2)) := by
+  rw [GenPrims.MemCmp_eq fuel b1 b2 p1 p2 n hf hn, MemCmp_ok n b1 b2 p1 p2 h1 h2]
+
+/-- non-NULL destination: the buffer the hand model computes, and the destination pointer is returned -/
+theorem gen_strncpy_is_model (fuel : Nat) (dst src : Buf) (dp sp n : Nat) (hf : n ≤ fuel) (hn : n < 18446744073709551616) :
+    Gen.StrPrims.StrNCpy fuel false dst dp src sp n = GenPrims.withPtr dp (CStr.StrNCpy dst dp src sp n) :=
+  GenPrims.StrNCpy_eq fuel dst src dp sp n hf hn
+theorem gen_strncpy_eq {dst src : Buf} {dp sp n : Nat} {a : Bytes} (h : CAt src sp a)
+    (hfit : dp + min n (a.length + 1) ≤ dst.length) (fuel : Nat) (hf : n ≤ fuel) (hn : n < 18446744073709551616) :
+    Gen.StrPrims.StrNCpy fuel false dst dp src sp n =
+      .ok (some dp, dst.take dp ++ (cz a).take n ++ dst.drop (dp + min n (a.length + 1))) :=
+  GenPrims.StrNCpy_ok h hfit fuel hf hn
+/-- `StrNCpy(NULL, …)` and `StrNCpy(…, 0)` touch nothing (the guard of the code, regenerated) -/
+theorem gen_strncpy_null_or_zero (fuel : Nat) (nl : Bool) (dst src : Buf) (dp sp n : Nat) (h : nl = true ∨ n = 0) :
+    Gen.StrPrims.StrNCpy fuel nl dst dp src sp n = .ok ((if nl then none else some dp), dst) := by
+  rcases h with h | h
+  · subst h; exact GenPrims.StrNCpy_null fuel dst src dp sp n
+  · subst h; exact GenPrims.StrNCpy_zero fuel nl dst src dp sp
+
+theorem gen_strstr_is_model (b1 b2 : Buf) (p1 p2 : Nat) {a2 : Bytes} (h2 : CAt b2 p2 a2) (hf : a2.length < b1.length + 1)
+    (hm : b1.length + 1 < 18446744073709551616) :
+    Gen.StrPrims.StrStr (b1.length + 1) b1 p1 b2 p2 = CStr.StrStr b1 p1 b2 p2 := GenPrims.StrStr_eq b1 b2 p1 p2 h2 hf hm
+theorem gen_strstr_eq {b1 b2 : Buf} {p1 p2 : Nat} {a1 a2 : Bytes} (h1 : CAt b1 p1 a1) (h2 : CAt b2 p2 a2) (fuel : Nat)
+    (hf1 : a1.length < fuel) (hf2 : a2.length < fuel) (hm : fuel < 18446744073709551616) :
+    Gen.StrPrims.StrStr fuel b1 p1 b2 p2 = .ok ((TextExt.strStr a1 a2).map (· + p1)) :=
+  GenPrims.StrStr_ok h1 h2 fuel hf1 hf2 hm
+
+theorem gen_atou_is_model (b : Buf) (p : Nat) : Gen.StrPrims.AtoU (b.length + 1) b p = CStr.AtoU b p := GenPrims.AtoU_eq b p
+theorem gen_atou_eq {b : Buf} {p : Nat} {a : Bytes} (h : CAt b p a) :
+    Gen.StrPrims.AtoU (b.length + 1) b p = .ok (TextExt.atou a) := GenPrims.AtoU_ok h
+
+/-- `AtoI` as regenerated, on every input: also the overflow outcome (`Err.overflow` = undefined behaviour of
+    `result *= 10` / `result += …` on `int`) is the hand model's -/
+theorem gen_atoi_is_model (b : Buf) (p : Nat) : Gen.StrPrims.AtoI (b.length + 1) b p = CStr.AtoI b p := GenPrims.AtoI_eq b p
+theorem gen_atoi_eq {b : Buf} {p : Nat} {a : Bytes} (h : CAt b p a) (hfit : TextExt.atoiMagnitude a ≤ 2147483647) :
+    Gen.StrPrims.AtoI (b.length + 1) b p = .ok (TextExt.atoi a) := GenPrims.AtoI_ok h hfit
+
+/-! non-vacuity: the regenerated functions run on concrete buffers -/
+example : Gen.StrPrims.StrLen 8 [7, 7, 97, 98, 0, 9, 9] 2 = .ok 2 := rfl
+/-- an unterminated buffer: the regenerated code reads out of bounds exactly like the model -/
+example : Gen.StrPrims.StrLen 3 [97, 98] 0 = .error .oob := rfl
+/-- too little fuel is reported, never a wrong value -/
+example : Gen.StrPrims.StrLen 2 [97, 98, 0] 0 = .error .fuel := rfl
+example : Gen.StrPrims.StrCmp 4 [97, 98, 0] 0 [97, 200, 0] 0 = .ok (-102) := rfl
+example : Gen.StrPrims.StrNCmp 4 [97, 98, 0] 0 [97, 99, 0] 0 1 = .ok 0 := rfl
+example : Gen.StrPrims.MemCmp 4 [0, 1, 2] 0 [0, 1, 3] 0 3 = .ok (-1) := rfl
+example : Gen.StrPrims.StrNCpy 9 false [238, 238, 238, 238] 1 [97, 0] 0 5 = .ok (some 1, [238, 97, 0, 238]) := rfl
+example : Gen.StrPrims.StrStr 5 [97, 97, 98, 0] 0 [97, 98, 0] 0 = .ok (some 1) := rfl
+example : Gen.StrPrims.AtoU 6 [32, 52, 50, 120, 0] 0 = .ok 42 := rfl
+example : Gen.StrPrims.AtoI 6 [9, 45, 49, 50, 0] 0 = .ok (-12) := rfl
+/-- 2147483648 does not fit `int`: the regenerated code reports the signed overflow -/
+example : Gen.StrPrims.AtoI 12 [50, 49, 52, 55, 52, 56, 51, 54, 52, 56, 0] 0 = .error .overflow := rfl
+example : Gen.StrPrims.ToLower 65 = 97 ∧ Gen.StrPrims.ToLower 193 = 193 ∧ Gen.StrPrims.isControl 200 = true := by decide +kernel
+
+/-! ## the allocation-free methods as REGENERATED (`Gen.StrPrims.m_*`: compositions of the regenerated primitives)
+
+`size`, `isEmpty`, `at`, `contains`, `startsWith`, `endsWith`, `findFrom`, `find` are translated from the clang AST
+too (`getBuffer()` = offset 0 of the object's buffer; pointer comparisons and `getBuffer() + length - other_length`
+as offsets).  For objects holding C strings and any fuel above both lengths (below 2^64) they return the textbook
+value — so the links used by C02 (`contains` = `Text.isInfix`), C03 and C12 speak about the source as it is. -/
+
+theorem gen_size_eq {o : Obj} {a : Bytes} (h : Holds o a) (fuel : Nat) (hf : a.length < fuel) (hm : fuel < 18446744073709551616) :
+    Gen.StrPrims.m_size fuel o.buf = .ok a.length := GenPrims.m_size_ok h fuel hf hm
+theorem gen_isEmpty_eq {o : Obj} {a : Bytes} (h : Holds o a) (fuel : Nat) (hf : a.length < fuel) (hm : fuel < 18446744073709551616) :
+    Gen.StrPrims.m_isEmpty fuel o.buf = .ok a.isEmpty := GenPrims.m_isEmpty_ok h fuel hf hm
+theorem gen_at_eq {self : Obj} {a : Bytes} (h : Holds self a) (fuel pos : Nat) (hp : pos ≤ a.length) :
+    Gen.StrPrims.m_at fuel self.buf pos = .ok ((cz a).getD pos 0) := by
+  rw [GenPrims.m_at_eq]; exact at_ok h pos hp
+theorem gen_contains_iff_isInfix {self other : Obj} {a b : Bytes} (h : Holds self a) (hb : Holds other b) (fuel : Nat)
+    (hf1 : a.length < fuel) (hf2 : b.length < fuel) (hm : fuel < 18446744073709551616) :
+    Gen.StrPrims.m_contains fuel self.buf other.buf = .ok (Text.isInfix a b) := GenPrims.m_contains_ok h hb fuel hf1 hf2 hm
+theorem gen_startsWith_eq {self other : Obj} {a b : Bytes} (h : Holds self a) (hb : Holds other b) (fuel : Nat)
+    (hf1 : a.length < fuel) (hf2 : b.length < fuel) (hm : fuel < 18446744073709551616) :
+    Gen.StrPrims.m_startsWith fuel self.buf other.buf = .ok (Text.startsWith a b) := by
+  rw [GenPrims.m_startsWith_eq h hb fuel hf1 hf2 hm]; exact startsWith_ok h hb
+theorem gen_endsWith_eq {self other : Obj} {a b : Bytes} (h : Holds self a) (hb : Holds other b) (fuel : Nat)
+    (hf1 : a.length < fuel) (hf2 : b.length < fuel) (hm : fuel < 18446744073709551616) :
+    Gen.StrPrims.m_endsWith fuel self.buf other.buf = .ok (Text.endsWith a b) := by
+  rw [GenPrims.m_endsWith_eq h hb fuel hf1 hf2 hm]; exact endsWith_ok h hb
+theorem gen_findFrom_eq {self : Obj} {a : Bytes} (h : Holds self a) (fuel : Nat) (hf : a.length < fuel)
+    (hm : fuel < 18446744073709551616) (start : Nat) (ch : UInt8) :
+    Gen.StrPrims.m_findFrom fuel self.buf start ch = .ok ((Text.findFrom a start ch).getD npos) := by
+  rw [GenPrims.m_findFrom_eq h fuel hf hm]; exact findFrom_ok h start ch
+theorem gen_find_eq {self : Obj} {a : Bytes} (h : Holds self a) (fuel : Nat) (hf : a.length < fuel)
+    (hm : fuel < 18446744073709551616) (ch : UInt8) :
+    Gen.StrPrims.m_find fuel self.buf ch = .ok ((Text.find a ch).getD npos) := by
+  rw [GenPrims.m_find_eq h fuel hf hm]; exact find_ok h ch
+
+example : Gen.StrPrims.m_endsWith 5 [97, 98, 99, 0] [98, 99, 0] = .ok true := rfl
+example : Gen.StrPrims.m_startsWith 5 [97, 98, 99, 0] [98, 0] = .ok false := rfl
+example : Gen.StrPrims.m_contains 5 [0] [0] = .ok true := rfl
+example : Gen.StrPrims.m_findFrom 5 [97, 98, 97, 0] 1 97 = .ok 2 := rfl
+example : Gen.StrPrims.m_findFrom 5 [97, 98, 97, 0] 7 97 = .ok 18446744073709551615 := rfl
 
 end C13
